@@ -84,6 +84,9 @@ def _vec_case(dim):
         ctx.assume(_det_nonzero(ctx, S))
         ctx.assume(_det_nonzero(ctx, T))
         s, t = gt.Transformation(S), gt.Transformation(T)
+        # ghost lemma (normal form): det(S T) == det(S) det(T), so that det(S T) != 0 follows from the requires
+        ctx.factor_hint(geo.det(geo.matmul(tolist(S), tolist(T))), [geo.det(tolist(S)), geo.det(tolist(T))])
+        ctx.factor_hint(geo.det(geo.adjugate(tolist(T))), [geo.det(tolist(T))] * (n - 1))
         st = s * t
         ctx.ensure("composition-is-matrix-product", ctx.conj([type(st) is gt.Transformation, _eq_all(ctx, st.array, geo.matmul(tolist(S), tolist(T)))]))
         I = gt.identity(dim)
@@ -173,7 +176,7 @@ def _quadric_case(dim):
     msyms = [("m%d%d" % (i, j)) for i in range(n) for j in range(i, n)]
 
     @case("C06", "action.quadric.%dd" % dim, names("t", n, n) + msyms + names("x", n) + names("h", n), mode="field", functions=FUN + ["geometer.curve.QuadricTensor.contains", "geometer.curve.QuadricTensor.__init__"],
-          assumptions=LEAF, timeout=180, also=("C07",))
+          assumptions=LEAF, timeout=180, also=("C07",), tier="thorough" if dim == 3 else "quick")
     def _(ctx):
         geometer, gt = _g()
         T = ctx.arr("t", n, n)
@@ -248,7 +251,9 @@ def _commute_case(name, dim, nargs, kind, op):
     for k in range(nargs):
         syms += names("abc"[k], n)
 
-    @case("C07", "commute.%s" % name, syms, mode="field", functions=FUN + ["geometer.point._join_meet_duality"], assumptions=LEAF, timeout=240)
+    @case("C07", "commute.%s" % name, syms, mode="field", functions=FUN + ["geometer.point._join_meet_duality"], timeout=240,
+          tier="thorough" if (dim == 3 and nargs == 3) else "quick",
+          assumptions=LEAF + ["both sides are non-zero: join/meet results are non-zero by the C01 contract (independent arguments; an invertible map preserves independence)"])
     def _(ctx):
         geometer, gt = _g()
         T = ctx.arr("t", n, n)
@@ -263,7 +268,7 @@ def _commute_case(name, dim, nargs, kind, op):
             r = f(*objs)
             lhs = t * r
             rhs = f(*[t * o for o in objs])
-        ctx.ensure("t*%s(..)==%s(t*..)" % (op, op), ctx.conj([type(lhs) is type(rhs), lhs.tensor_shape == rhs.tensor_shape, ctx.proj_eq(lhs.array, rhs.array)]))
+        ctx.ensure("t*%s(..)==%s(t*..)" % (op, op), ctx.conj([type(lhs) is type(rhs), lhs.tensor_shape == rhs.tensor_shape, ctx.minors_zero(lhs.array, rhs.array)]))
 
 
 _commute_case("join.PP.2d", 2, 2, "point", "join")
@@ -308,7 +313,8 @@ def _polytope_case(dim):
     n = dim + 1
 
     @case("C06", "action.polytopes.%dd" % dim, names("t", n, n) + names("a", n) + names("b", n) + names("c", n), mode="field",
-          functions=FUN + ["geometer.shapes.SegmentTensor.__apply__", "geometer.shapes.PolygonTensor.__apply__"], assumptions=LEAF, timeout=240, also=("C07",))
+          functions=FUN + ["geometer.shapes.SegmentTensor.__apply__", "geometer.shapes.PolygonTensor.__apply__"], assumptions=LEAF, timeout=240, also=("C07",),
+          tier="thorough" if dim == 3 else "quick")
     def _(ctx):
         geometer, gt = _g()
         import geometer.shapes as gs
@@ -318,29 +324,30 @@ def _polytope_case(dim):
         t = gt.Transformation(T)
         a, b, c = (ctx.vec(k, n) for k in "abc")
         ctx.assume(ctx.neg(dependent(ctx, [a, b, c])))
+        ctx.factor_hint(geo.det(geo.adjugate(tolist(T))), [geo.det(tolist(T))] * (n - 1))
         A, B, C = (geometer.Point(v) for v in (a, b, c))
         with ctx.stubs():
             seg = gs.Segment(A, B)
             line_before = tolist(seg._line.array)
             ts = t * seg
         ctx.ensure("segment:kind", type(ts) is gs.Segment and ts.pdim == 1 and tuple(ts.shape) == (2, n))
-        ctx.ensure("C07:segment:vertices-are-images-in-order", ctx.conj([ctx.proj_eq(ts.array[0], rho_cov(T, a)), ctx.proj_eq(ts.array[1], rho_cov(T, b))]), prop="C07")
+        ctx.ensure("C07:segment:vertices-are-images-in-order", ctx.conj([_eq_all(ctx, ts.array[0], rho_cov(T, a)), _eq_all(ctx, ts.array[1], rho_cov(T, b))]), prop="C07")
         # the cached supporting line moves along and is the join of the new vertices
         if dim == 2:
-            ctx.ensure("segment:_line-is-join-of-image-vertices", ctx.proj_eq(ts._line.array, geo.cross(rho_cov(T, a), rho_cov(T, b))))
+            ctx.ensure("segment:_line-is-join-of-image-vertices", ctx.minors_zero(ts._line.array, geo.cross(rho_cov(T, a), rho_cov(T, b))))
         else:
-            ctx.ensure("segment:_line-is-join-of-image-vertices", ctx.proj_eq(ts._line.array, geo.line3_from_points(rho_cov(T, a), rho_cov(T, b))))
+            ctx.ensure("segment:_line-is-join-of-image-vertices", ctx.minors_zero(ts._line.array, geo.line3_from_points(rho_cov(T, a), rho_cov(T, b))))
         ctx.ensure("segment:operand-_line-untouched", _eq_all(ctx, seg._line.array, line_before))
         with ctx.stubs():
             back = t.inverse() * ts
-        ctx.ensure("segment:t.inverse()*(t*s)==s", ctx.conj([ctx.proj_eq(back.array[0], a), ctx.proj_eq(back.array[1], b), ctx.proj_eq(back._line.array, seg._line.array)]))
+        ctx.ensure("segment:t.inverse()*(t*s)==s", ctx.conj([_eq_all(ctx, back.array[0], a), _eq_all(ctx, back.array[1], b), ctx.minors_zero(back._line.array, seg._line.array)]))
         with ctx.stubs():
             tri = gs.Triangle(A, B, C)
             tt = t * tri
         ctx.ensure("triangle:kind", type(tt) is gs.Triangle and tt.pdim == 2 and tuple(tt.shape) == (3, n))
-        ctx.ensure("C07:triangle:vertices-are-images-in-order", ctx.conj([ctx.proj_eq(tt.array[k], rho_cov(T, v)) for k, v in enumerate((a, b, c))]), prop="C07")
+        ctx.ensure("C07:triangle:vertices-are-images-in-order", ctx.conj([_eq_all(ctx, tt.array[k], rho_cov(T, v)) for k, v in enumerate((a, b, c))]), prop="C07")
         if dim == 3:
-            ctx.ensure("triangle:_plane-is-join-of-image-vertices", ctx.proj_eq(tt._plane.array, geo.plane_from_points(*[rho_cov(T, v) for v in (a, b, c)])))
+            ctx.ensure("triangle:_plane-is-join-of-image-vertices", ctx.minors_zero(tt._plane.array, geo.plane_from_points(*[rho_cov(T, v) for v in (a, b, c)])))
             ctx.ensure("triangle:_plane-contains-image-vertices", ctx.conj([on_hyper(ctx, tt._plane.array, rho_cov(T, v)) for v in (a, b, c)]))
 
 
